@@ -344,6 +344,9 @@ def _select(chk):
         sk2 = rnd.sample(sk2, 1500)
     cases.extend(sk2)
     chk.extra["skeletons2"] = len(sk2)
+    skh = [c05gen.describe(p) for p in c05gen.skeletons_head()]
+    cases.extend(skh)
+    chk.extra["skeletons_head"] = len(skh)
     for gen in (c05gen.switch_product(), c05gen.closure_matrix(), c05gen.closure_expr_sites(), c05gen.scoping_cases(), c05gen.completion_cases()):
         cases.extend(c05gen.describe(p) for p in gen)
     n_random = 2500 if quick else 60000
@@ -429,7 +432,7 @@ def main(chk):
                 chk.sample({"id": rec["id"], **rec["sample"]}, cls=rec["sub"], per_class=4)
             if "diff" in rec:
                 kind = rec["diff"][0]
-                if rec["sub"] in ("skel", "skel2"):
+                if rec["sub"] in ("skel", "skel2", "skelhead"):
                     d = rec["desc"]
                     bucket = "%s|%s|X:%s|K:%s" % (rec["sub"], kind, d[2], d[1])
                 elif rec["sub"] == "random":
